@@ -439,12 +439,14 @@ func Timeout[T any](duration time.Duration) func(Observable[T]) Observable[T] {
 		return NewObservableWithContext(func(subscriberCtx context.Context, destination Observer[T]) Teardown {
 			var sub Subscription
 
+			// Contexts are stored by address: atomic.Value panics when the concrete type of the
+			// stored value changes, and a context derived upstream is not of the subscriber context's type.
 			var lastCtx atomic.Value
 
-			lastCtx.Store(subscriberCtx) // if no value is emitted, we use the subscriber context
+			lastCtx.Store(&subscriberCtx) // if no value is emitted, we use the subscriber context
 
 			timer := time.AfterFunc(duration, func() {
-				destination.ErrorWithContext(lastCtx.Load().(context.Context), newTimeoutError(duration)) //nolint:errcheck,forcetypeassert
+				destination.ErrorWithContext(*lastCtx.Load().(*context.Context), newTimeoutError(duration)) //nolint:errcheck,forcetypeassert
 			})
 
 			sub = source.SubscribeWithContext(
@@ -455,7 +457,7 @@ func Timeout[T any](duration time.Duration) func(Observable[T]) Observable[T] {
 						destination.NextWithContext(ctx, value)
 						// @TODO: what happens if the above line is too slow?
 						timer.Reset(duration)
-						lastCtx.Store(ctx)
+						lastCtx.Store(&ctx)
 					},
 					func(ctx context.Context, err error) {
 						timer.Stop()
